@@ -1,3 +1,5 @@
-// Kani contracts for /repo/src/stdlib/mod_func.rs (child module via cfg(kani) hook).
+// /repo/src/stdlib/mod_func.rs: `mod(value, modulus)` is `value.try_rem(modulus)?` (frame scan
+// mod_delegates); its contract is therefore try_rem's, checked in arithmetic.rs (c29_mod_*).
+// A harness through `r#mod` itself runs into the ValueError->ExpressionError drop-glue explosion.
 #![allow(warnings)]
 use super::*;
